@@ -1,16 +1,17 @@
 #!/bin/sh
 # tools/confirm_seed.sh <worktree> <seed id> : confirm a sub-agent's change in its scratch worktree (demo passes on the clean tree,
 # fails with the patch, test suite green with the patch) and store patch.diff / demo.py / notes.md under /verif/seeded/<id>/
+# (no `git stash`: the stash is shared by all worktrees of a repository)
 W="$1"; ID="$2"
 D=/verif/seeded/$ID
 mkdir -p "$D"
 cd "$W" || exit 3
-git diff -- src > "$D/patch.diff"
+cp seed_out/patch.diff "$D/patch.diff"
 cp seed_out/demo.py "$D/demo.py"; cp seed_out/notes.md "$D/notes.md" 2>/dev/null
-git stash -q
-PYTHONPATH="$W/src" timeout 600 /venv/bin/python seed_out/demo.py > "$D/.demo_clean.txt" 2>&1; C=$?
-git stash pop -q
-PYTHONPATH="$W/src" timeout 600 /venv/bin/python seed_out/demo.py > "$D/.demo_patched.txt" 2>&1; P=$?
+git checkout -q -- src
+PYTHONPATH="$W/src" timeout 900 /venv/bin/python seed_out/demo.py > "$D/.demo_clean.txt" 2>&1; C=$?
+git apply "$D/patch.diff" || { echo "$ID patch does not apply"; exit 3; }
+PYTHONPATH="$W/src" timeout 900 /venv/bin/python seed_out/demo.py > "$D/.demo_patched.txt" 2>&1; P=$?
 echo "$ID demo_clean_exit=$C demo_patched_exit=$P"
 PYTHONPATH="$W/src" timeout 3000 /venv/bin/python -m pytest -q -p no:cacheprovider --timeout=900 tests 2>&1 | grep -v conda | tail -4 > "$D/.pytest.txt"
 echo "$ID pytest: $(grep -E 'passed|failed' $D/.pytest.txt | tail -1) failed: $(grep FAILED $D/.pytest.txt | tr '\n' ' ')"
